@@ -348,12 +348,12 @@ def _formatSystem(event: LogEvent) -> str:
                 namespace=cast(str, event.get("log_namespace", "-")),
                 level=levelName,
             )
-        except Exception:
+        except BaseException:
             system = "UNFORMATTABLE"
     else:
         try:
             system = str(system)
-        except Exception:
+        except BaseException:
             system = "UNFORMATTABLE"
     return system
 
@@ -413,7 +413,7 @@ def eventAsText(
     if includeTimestamp:
         try:
             timeText = formatTime(cast(float, event.get("log_time", None)))
-        except Exception:
+        except BaseException:
             # A time stamp that is not a representable number.
             timeText = "-"
         timeStamp = "".join([timeText, " "])
